@@ -16,8 +16,8 @@ ANCHORS = ['phylib.io.traces:BaseEphysReader._append_op', 'phylib.io.traces:Base
            'phylib.io.traces:BaseEphysReader.__rtruediv__', 'phylib.io.traces:BaseEphysReader.__rfloordiv__',
            'phylib.io.traces:BaseEphysReader.__neg__', 'phylib.io.traces:BaseEphysReader.__pos__']
 RULE = ('A program is a sequence of operators from {pos, neg, add, radd, sub, rsub, mul, rmul, truediv, '
-        'rtruediv, floordiv, rfloordiv, pow, rpow} x scalars {2, 3, -3, 0.5, 2.0, -1.5 (Python int/float); '
-        'np.float32(2), np.int16(3) on the right} and whole-recording column selections (slice, list, '
+        'rtruediv, floordiv, rfloordiv, pow, rpow} x scalars {2, 3, -3, 0.5, 2.0, -1.5 and the neutral elements 0, 1, 0.0, 1.0 (Python int/float); '
+        'np.float32(2), np.int16(3), np.float64(1), np.int64(0) on the right} and whole-recording column selections (slice, list, '
         'permutation). It is built twice with the Python operators, on the reader and on the loaded '
         'array, then indexed with 4 row items; values+dtype must agree (NaN-aware) or both must raise '
         'the same exception type. EVERY program of depth <= 2 (thorough: <= 3 on int16/array) on the '
@@ -40,8 +40,8 @@ NC = 3
 UNARY = ['pos', 'neg']
 BINARY = ['add', 'radd', 'sub', 'rsub', 'mul', 'rmul', 'truediv', 'rtruediv', 'floordiv', 'rfloordiv',
           'pow', 'rpow']
-PYSCAL = [2, 3, -3, 0.5, 2.0, -1.5]
-NPSCAL = [('f4', 2), ('i2', 3)]
+PYSCAL = [2, 3, -3, 0.5, 2.0, -1.5, 0, 1, 0.0, 1.0]
+NPSCAL = [('f4', 2), ('i2', 3), ('f8', 1), ('i8', 0)]
 COLS = [('slice', [1, None]), ('list', [2, 0]), ('perm', [1, 2, 0])]
 
 
